@@ -2,6 +2,7 @@ package main
 
 import (
 	"fmt"
+	"math"
 	"os"
 	"go/constant"
 	"go/token"
@@ -122,46 +123,142 @@ func (e *Engine) analyzeLoops(fn *ssa.Function) {
 	e.loopHdr[fn] = hdrs
 }
 
-// cells (by source name) and heap arrays written inside the loop body
+// loopEffects: what a loop body may write — source locals (by name), heap families (prefix of the heap array
+// names: F_<Struct>… for fields of objects, E_<Elem>… for slice elements, "Bytes" for byte memory), buffers, maps.
+type loopEffects struct {
+	names    map[string]bool
+	families map[string]bool
+	bytes    bool
+	buf      bool
+	all      bool // a call whose effect is not analysed: every family
+}
+
 func (e *Engine) loopWrites(fn *ssa.Function, h *ssa.BasicBlock) (names map[string]bool, heapWrite bool, bufWrite bool) {
-	names = map[string]bool{}
+	fx := e.loopEffectsOf(fn, h)
+	return fx.names, fx.bytes || fx.all || len(fx.families) > 0, fx.buf
+}
+
+func (e *Engine) loopEffectsOf(fn *ssa.Function, h *ssa.BasicBlock) *loopEffects {
+	fx := &loopEffects{names: map[string]bool{}, families: map[string]bool{}}
+	seen := map[*ssa.Function]bool{}
 	for b := range e.loopBody[h] {
-		for _, ins := range b.Instrs {
-			switch i := ins.(type) {
-			case *ssa.Store:
-				root := i.Addr
-				for {
-					switch x := root.(type) {
-					case *ssa.IndexAddr:
-						root = x.X
-						continue
-					case *ssa.FieldAddr:
-						root = x.X
-						continue
+		e.blockEffects(b, fx, seen, 0, true)
+	}
+	return fx
+}
+
+func elemFamily(t types.Type) string { return loc{kind: "E", tn: typeName(t)}.name("") }
+func objFamily(t types.Type) string  { return loc{kind: "F", tn: typeName(t)}.name("") }
+
+func (e *Engine) blockEffects(b *ssa.BasicBlock, fx *loopEffects, seen map[*ssa.Function]bool, depth int, top bool) {
+	for _, ins := range b.Instrs {
+		switch i := ins.(type) {
+		case *ssa.Store:
+			e.storeEffect(i.Addr, fx, top)
+		case *ssa.MapUpdate:
+			// maps are havocked wholesale at loop heads
+		case *ssa.Call:
+			cc := &i.Call
+			if bi, ok := cc.Value.(*ssa.Builtin); ok {
+				switch bi.Name() {
+				case "copy", "append":
+					if st, ok := cc.Args[0].Type().Underlying().(*types.Slice); ok {
+						if bvWidth(st.Elem()) == 8 && !isFloat(st.Elem()) {
+							fx.bytes = true
+						} else {
+							fx.families[elemFamily(st.Elem())] = true
+						}
 					}
-					break
 				}
-				if a, ok := root.(*ssa.Alloc); ok {
-					if a.Comment != "" && a.Comment != "varargs" && a.Comment != "complit" && a.Comment != "slicelit" {
-						names[a.Comment] = true
-					}
-				} else {
-					heapWrite = true
+				continue
+			}
+			f := cc.StaticCallee()
+			if f == nil {
+				if !cc.IsInvoke() {
+					fx.all = true // call through a function value
 				}
-			case *ssa.Call:
-				if f := i.Call.StaticCallee(); f != nil {
-					n := f.String()
-					if strings.HasPrefix(n, "fmt.Fprintf") || strings.HasPrefix(n, "(*bytes.Buffer).Write") {
-						bufWrite = true
-					}
-				}
-				if b, ok := i.Call.Value.(*ssa.Builtin); ok && (b.Name() == "copy" || b.Name() == "append") {
-					heapWrite = true
-				}
+				continue // interface observers are pure by contract
+			}
+			n := f.String()
+			if strings.HasPrefix(n, "fmt.Fprintf") || strings.HasPrefix(n, "(*bytes.Buffer).Write") {
+				fx.buf = true
+				continue
+			}
+			if f.Pkg == nil || e.pkgs[f.Pkg.Pkg.Path()] == nil || f.Blocks == nil {
+				continue // library models do not write program memory
+			}
+			if e.findContract(f, "requires") != nil || len(e.findContracts(f, "ensures")) > 0 {
+				continue // contracted callees write nothing pre-existing (modifies = none); their results are fresh values
+			}
+			if seen[f] || depth > 4 {
+				continue
+			}
+			seen[f] = true
+			for _, cb := range f.Blocks {
+				e.blockEffects(cb, fx, seen, depth+1, false)
 			}
 		}
 	}
-	return
+}
+
+func (e *Engine) storeEffect(addr ssa.Value, fx *loopEffects, top bool) {
+	switch x := addr.(type) {
+	case *ssa.Alloc:
+		if top && x.Comment != "" && x.Comment != "varargs" && x.Comment != "complit" && x.Comment != "slicelit" {
+			fx.names[x.Comment] = true
+		}
+		if et := x.Type().Underlying().(*types.Pointer).Elem(); x.Heap {
+			if _, ok := et.Underlying().(*types.Struct); ok {
+				fx.families[objFamily(et)] = true
+			}
+		}
+	case *ssa.IndexAddr:
+		switch xt := x.X.Type().Underlying().(type) {
+		case *types.Slice:
+			if bvWidth(xt.Elem()) == 8 && !isFloat(xt.Elem()) {
+				fx.bytes = true
+			} else {
+				fx.families[elemFamily(xt.Elem())] = true
+			}
+		default:
+			e.storeEffect(x.X, fx, top) // element of a local array
+		}
+	case *ssa.FieldAddr:
+		// walk to the base pointer of the chain of field selections
+		base := x.X
+		for {
+			if fa, ok := base.(*ssa.FieldAddr); ok {
+				base = fa.X
+				continue
+			}
+			break
+		}
+		switch bx := base.(type) {
+		case *ssa.Alloc:
+			et := bx.Type().Underlying().(*types.Pointer).Elem()
+			if _, isStruct := et.Underlying().(*types.Struct); isStruct && bx.Heap && (bx.Comment == "complit" || bx.Comment == "new") {
+				fx.families[objFamily(et)] = true
+			} else {
+				e.storeEffect(bx, fx, top)
+			}
+		case *ssa.IndexAddr:
+			if st, ok := bx.X.Type().Underlying().(*types.Slice); ok {
+				fx.families[elemFamily(st.Elem())] = true
+			} else {
+				e.storeEffect(bx.X, fx, top)
+			}
+		default:
+			if pt, ok := base.Type().Underlying().(*types.Pointer); ok {
+				fx.families[objFamily(pt.Elem())] = true
+			} else {
+				fx.all = true
+			}
+		}
+	case *ssa.Global:
+		// ghost variables are havocked at loop heads; other globals may not be stored to (tool error at the store)
+	default:
+		fx.all = true
+	}
 }
 
 // ---------- function execution ----------
@@ -295,7 +392,12 @@ func constVal(c *ssa.Const) Val {
 	case w == 0:
 		return Bool(constant.BoolVal(c.Value))
 	case w > 0 && isFloat(t):
-		return OpaqueV{"float const"}
+		// floating-point values are carried as their IEEE bit patterns
+		f, _ := constant.Float64Val(constant.ToFloat(c.Value))
+		if w == 32 {
+			return BVu(uint64(math.Float32bits(float32(f))), 32)
+		}
+		return BVu(math.Float64bits(f), 64)
 	case w > 0:
 		iv := constant.ToInt(c.Value)
 		if isSigned(t) {
@@ -687,6 +789,11 @@ func (e *Engine) binop(st *State, op token.Token, xv, yv Val, xt types.Type, ins
 	case SliceV:
 		switch bb := yv.(type) {
 		case SliceV:
+			if (a.Str || bb.Str) && op == token.ADD {
+				ta, _ := e.textOf(st, a)
+				tb, _ := e.textOf(st, bb)
+				return e.sliceOfText(st, append(append([]Piece{}, ta...), tb...), true)
+			}
 			if a.Str || bb.Str {
 				// string comparison: only (in)equality against same view / literals
 				ta, _ := e.textOf(st, a)
@@ -783,6 +890,27 @@ func (e *Engine) binop(st *State, op token.Token, xv, yv Val, xt types.Type, ins
 	}
 	x, y := asTerm(xv), asTerm(yv)
 	sg := isSigned(xt)
+	if isFloat(xt) {
+		// floating-point operators are uninterpreted functions of the bit patterns
+		name := fmt.Sprintf("flt_%s_%d", map[token.Token]string{token.ADD: "add", token.SUB: "sub", token.MUL: "mul", token.QUO: "div",
+			token.EQL: "eq", token.NEQ: "eq", token.LSS: "lt", token.LEQ: "le", token.GTR: "lt", token.GEQ: "le"}[op], x.W)
+		bs := sortOf(x)
+		switch op {
+		case token.ADD, token.SUB, token.MUL, token.QUO:
+			DeclareUF(name, []string{bs, bs}, bs)
+			return UF(name, x.W, x, y)
+		case token.EQL, token.LSS, token.LEQ:
+			DeclareUF(name, []string{bs, bs}, "Bool")
+			return UF(name, 0, x, y)
+		case token.NEQ:
+			DeclareUF(name, []string{bs, bs}, "Bool")
+			return Not(UF(name, 0, x, y))
+		case token.GTR, token.GEQ:
+			DeclareUF(name, []string{bs, bs}, "Bool")
+			return UF(name, 0, y, x)
+		}
+		fail("floating-point operator %s", op)
+	}
 	switch op {
 	case token.ADD:
 		return Add(x, y)
@@ -885,6 +1013,23 @@ func (e *Engine) convert(st *State, x Val, from, to types.Type) Val {
 				DeclareUF("f32to64", []string{"(_ BitVec 32)"}, "(_ BitVec 64)")
 				return UF("f32to64", 64, t)
 			}
+			DeclareUF("f64to32", []string{"(_ BitVec 64)"}, "(_ BitVec 32)")
+			return UF("f64to32", 32, t)
+		}
+		if w > 0 && (isFloat(from) || isFloat(to)) {
+			// float <-> integer conversions are uninterpreted (floating-point arithmetic is outside the subset:
+			// obligations that depend on it cannot be discharged and are reported)
+			sg := "u"
+			if isSigned(from) || isSigned(to) {
+				sg = "s"
+			}
+			dir := "f2i"
+			if isFloat(to) {
+				dir = "i2f"
+			}
+			name := fmt.Sprintf("%s_%s_%d_%d", dir, sg, t.W, w)
+			DeclareUF(name, []string{sortOf(t)}, sortOf(&Term{W: w}))
+			return UF(name, w, t)
 		}
 		fail("convert %s -> %s", typeName(from), typeName(to))
 	}
